@@ -163,6 +163,66 @@ def copies_ok(i: int) -> bool:
     return ret(ok)
 
 
+MAPCASES = [
+    ('x|p, y|p', {'x': 'urn:x', 'y': 'urn:y'}, None), ('x|e', {'x': 'urn:x'}, None), ('p', {'': 'urn:x'}, None),
+    (':--a', None, {':--a': 'p', ':--b': 'div'}), (':--b > :--a', {'x': 'urn:x'}, {':--a': 'x|e, p', ':--b': 'div, r'}),
+    ('p:--a', {'x': 'urn:x', '': 'http://www.w3.org/1999/xhtml'}, {':--a': ':is(.a, [t])'}),
+]
+MUTATIONS = ['clear', 'change', 'add', 'delete', 'retarget']
+
+
+def _mutate(d, how):
+    if d is None:
+        return
+    if how == 'clear':
+        d.clear()
+    elif how == 'change':
+        for k in list(d):
+            d[k] = d[k] + '0' if not d[k].startswith(('p', ':', 'd', 'x')) else 'span'
+    elif how == 'add':
+        d['z' if not any(k.startswith(':') for k in d) else ':--zz'] = 'urn:z' if not any(k.startswith(':') for k in d) else 'b'
+    elif how == 'delete':
+        d.pop(sorted(d)[0])
+    else:
+        ks = sorted(d)
+        vs = [d[k] for k in ks]
+        for k, v in zip(ks, vs[1:] + vs[:1]):
+            d[k] = v
+
+
+def caller_maps_ok(ci: int, mi: int, purge_first: bool) -> bool:
+    """
+    pre: 0 <= ci < len(MAPCASES)
+    pre: 0 <= mi < len(MUTATIONS)
+    post: _
+    """
+    # the compiled object does not alias the caller's namespaces / custom dictionaries: after the caller changes them the
+    # object is what it was (maps, hash, equality with its own copies and with a compile from the original maps, selection)
+    ci, mi, purge_first = concrete(ci), concrete(mi), concrete(purge_first)
+    with notrace():
+        pat, ns0, cu0 = MAPCASES[ci]
+        ns = dict(ns0) if ns0 is not None else None
+        cu = dict(cu0) if cu0 is not None else None
+        sv.purge()
+        c = sv.compile(pat, ns, custom=cu)
+        before = (repr(c.selectors), dict(c.namespaces) if c.namespaces is not None else None,
+                  dict(c.custom) if c.custom is not None else None, hash(c),
+                  [[id(e) for e in c.select(d)] for d in (DOC, XDOC)])
+        twin = pickle.loads(pickle.dumps(c))
+        _mutate(ns, MUTATIONS[mi])
+        _mutate(cu, MUTATIONS[mi])
+        if purge_first:
+            sv.purge()
+        after = (repr(c.selectors), dict(c.namespaces) if c.namespaces is not None else None,
+                 dict(c.custom) if c.custom is not None else None, hash(c),
+                 [[id(e) for e in c.select(d)] for d in (DOC, XDOC)])
+        ok = before == after and c == twin and hash(c) == hash(twin) and c == copy.deepcopy(c)
+        ok = ok and before[1] == ns0 and before[2] == cu0
+        fresh = sv.compile(pat, dict(ns0) if ns0 is not None else None, custom=dict(cu0) if cu0 is not None else None)
+        ok = ok and fresh == c and hash(fresh) == hash(c)
+    return ret(ok)
+
+
 HIST = ['p', 'div > p', 'x|p', ':--z', 'PURGE', 'p', ':nth-child(2n+1)', 'PURGE', '[a=b]', ':lang(en)']
 
 
